@@ -50,6 +50,30 @@ pub fn j_series(s: &Series, leap: &LeapTable, out: &mut Local) {
         }
     };
     let n_max = n_items.max(n_alt);
+    if n_items != n_alt && n_max > 1_000_000 {
+        // two readings, one of them far too long to step through (a nanosecond step across a leap second): accept the
+        // short count, or a correct prefix of the long one
+        let start_e = Epoch::from_duration(mk(s.start), s.ts);
+        let end_x = Epoch::from_duration(mk(end), s.end_ts);
+        let stp = mk(s.step);
+        let short = n_items.min(n_alt);
+        match guard(|| {
+            let it = if s.incl { TimeSeries::inclusive(start_e, end_x, stp) } else { TimeSeries::exclusive(start_e, end_x, stp) };
+            let v: Vec<Epoch> = it.take(short as usize + 1000).collect();
+            v
+        }) {
+            Ok(v) => {
+                let items_ok = v.iter().enumerate().all(|(j, e)| e.time_scale == s.ts && alpha(e.duration) == s.start + j as i128 * s.step);
+                if items_ok && (v.len() as i128 == short || v.len() as i128 == short + 1000) {
+                    out.ok(v.len() as u64, true, 31);
+                } else {
+                    out.viol("c15.series", "two-readings,neither-count".into(), args, format!("{short} or {n_max} items"), format!("{} items (prefix ok: {items_ok})", v.len()));
+                }
+            }
+            Err(p) => out.viol("c15.series", format!("panic:{}", p.class()), args, "no panic".into(), format!("{} {}", p.loc, p.msg)),
+        }
+        return;
+    }
     let start = Epoch::from_duration(mk(s.start), s.ts);
     let end_e = Epoch::from_duration(mk(end), s.end_ts);
     let step = mk(s.step);
